@@ -255,12 +255,12 @@ Qed.
    DTS is the published one minus that base, unless it lies below the base *)
 Lemma chain_times : forall l base cc e,
   chain base cc l -> base <> max_u64 -> In e l ->
-  f_dts (te_frame e) = (if te_dts0 e <? base then te_dts0 e else te_dts0 e - base)
+  f_dts (te_frame e) = rebase_dts (te_dts0 e) base
   /\ f_pts (te_frame e) = u64 (f_dts (te_frame e) + 90 * te_cts e).
 Proof.
   induction l as [|x t IH]; intros base cc e H Hb Hin; [destruct Hin|].
   cbn [chain] in H. destruct H as (_ & _ & Hd & Hp & Ht).
-  assert (Er : rebase base (te_dts0 x) = (base, if te_dts0 x <? base then te_dts0 x else te_dts0 x - base)).
+  assert (Er : rebase base (te_dts0 x) = (base, rebase_dts (te_dts0 x) base)).
   { unfold rebase. apply N.eqb_neq in Hb. now rewrite Hb. }
   destruct Hin as [<-|Hin].
   - split; [rewrite Hd, Er; reflexivity|exact Hp].
@@ -271,6 +271,18 @@ Lemma chain_first_base e t cc : chain max_u64 cc (e :: t) ->
   f_dts (te_frame e) = 0 /\ chain (te_dts0 e) (te_cc e) t.
 Proof.
   cbn [chain]. intros (_ & _ & Hd & _ & Ht).
-  unfold rebase in *. rewrite N.eqb_refl in *. cbn [fst snd] in *.
+  unfold rebase, rebase_dts in *. rewrite N.eqb_refl in *. cbn [fst snd] in *.
   rewrite N.ltb_irrefl in Hd. rewrite N.sub_diag in Hd. now split.
 Qed.
+
+(* the rebased dts is the published one minus the base on the 33-bit clock, whatever their order *)
+Lemma rebase_dts_mod d b : (rebase_dts d b + b) mod ts_clock = d mod ts_clock.
+Proof. unfold rebase_dts, ts_clock. destruct (d <? b) eqn:E; lia. Qed.
+
+Lemma rebase_dts_ge d b : b <= d -> rebase_dts d b = d - b.
+Proof. unfold rebase_dts. intros H. destruct (d <? b) eqn:E; [lia|reflexivity]. Qed.
+
+(* the pinned filter left a dts below the base alone: no constant fits *)
+Lemma rebase_pinned_refuted :
+  exists b d, snd (rebase_pinned b d) = d /\ d < b /\ (snd (rebase_pinned b d) + b) mod ts_clock <> d mod ts_clock.
+Proof. exists 90000, 45000. repeat split; vm_compute; congruence. Qed.
